@@ -314,7 +314,7 @@ class ParticipationRatio(Unit):
         return [V], {}, dict(d=d, N=N, V=V, vec=V.reader())
 
     def clause_names(self, case):
-        return ["PR=(sum|e|^2)^2/(N.sum|e|^4)", "induction:Q(0,c)", "induction:Q(n,c)=>Q(n+1,c)", "cauchy-schwarz-from-Q(N,S1/N)",
+        return ["PR=(sum|e|^2)^2/(N.sum|e|^4)", "induction:Q(0,c)", "induction:Q(n,c)=>Q(n+1,c)", "lemma:square-nonnegative", "cauchy-schwarz-from-Q(N,S1/N)",
                 "0<PR<=1", "div0:N.sum|e|^4!=0", "frame-input-not-written"]
 
     def ensures(self, ctx, case, inp, out):
@@ -328,7 +328,13 @@ class ParticipationRatio(Unit):
             S1, S2, _ = pr_sums(vec, N, d, n=k)
             return sv.cmp(">=", sv.add(sv.sub(S2, sv.mul(sv.mul(2, cc), S1)), sv.mul(sv.to_real(k), sv.mul(cc, cc))), 0)
         yield "induction:Q(0,c)", Q(0, c)
-        yield "induction:Q(n,c)=>Q(n+1,c)", sv.implies(sv.and_(n >= 0, Q(n, c)), Q(sv.add(n, 1), c))
+        # the step adds (a_n - c)^2 >= 0: the square is given to the solver as an (own, trivially true) fact so that the step is
+        # linear arithmetic over the monomials and does not depend on the non-linear solver's variable order
+        a_n = pr_sums(vec, N, d)[2](n)
+        sq = sv.cmp(">=", sv.mul(sv.sub(a_n, c), sv.sub(a_n, c)), 0)
+        yield "induction:Q(n,c)=>Q(n+1,c)", sv.implies(sv.and_(n >= 0, Q(n, c)), Q(sv.add(n, 1), c)), {"assume": [sq]}
+        xg = sv.real("x_gen")
+        yield "lemma:square-nonnegative", sv.cmp(">=", sv.mul(xg, xg), 0)
         S1, S2, _ = pr_sums(vec, N, d)
         g1, g2 = sv.real("S1_gen"), sv.real("S2_gen")
         Nr = sv.to_real(N)
